@@ -285,6 +285,9 @@ func rtOracle(r *rtRun, prop string) []string {
 	var out []string
 	bad := func(f string, a ...any) { out = append(out, fmt.Sprintf(f, a...)) }
 	if r.d == nil {
+		if (prop == "C04" || prop == "C08") && r.failedCfgLeak != "" {
+			bad("Config returned an error (%s), yet a goroutine of the library is running for the refused configuration while the Config context is alive: %s", r.configErr, r.failedCfgLeak)
+		}
 		// Config failed: C04 says it must fail iff the initial stack does not verify (while initial verification is on) or does not stack
 		if prop == "C04" {
 			valid := true
